@@ -46,4 +46,34 @@ def dtRun (user : String) : Out :=
   | .ok (.code e) => firstOut (toCoreProg [] e)
   | _ => .other
 
+/-! ### the macro pipe -/
+
+def bits2 : UInt64 := 0x4000000000000000    -- 2.0
+def bits3 : UInt64 := 0x4008000000000000    -- 3.0
+def bits100 : UInt64 := 0x4059000000000000  -- 100.0
+
+/-- `fn dsp(){ body }` as a whole program -/
+def dspOnly (body : Ex) : Ex := .letE "dsp" (.lam [] body) Ex.unit
+
+/-- `3.0 ||> (|a| `{ ($a, 10.0 ||> (|<inner>| `{ $<inner> })).1 })` : nested pipes, the inner binder called `inner` -/
+def nestedPipe (inner : String) : Ex :=
+  .pipeM (.flt bits3) (.lam ["a"] (.bracket
+    (.proj (.tup [.escape (.var "a"), .pipeM (.flt bits10) (.lam [inner] (.bracket (.escape (.var inner))))]) 1)))
+
+/-- `3.0 ||> (|a| `{ $((|<inner>| `{ $<inner> })(`2.0)) })` : a macro lambda that is not piped, inside a piped body -/
+def pipeOverLambda (inner : String) : Ex :=
+  .pipeM (.flt bits3) (.lam ["a"] (.bracket (.escape (.app (.lam [inner] (.bracket (.escape (.var inner)))) [.bracket (.flt bits2)]))))
+
+/-- ```
+fn fst(x, y){ x }
+#stage(macro)
+fn m(<p>){ `{ 3.0 ||> fst($<p>, _) } }
+#stage(main)
+fn dsp(){ m!(`100.0) }
+``` -/
+def sugarCapture (p : String) : Ex :=
+  .letE "fst" (.lam ["x", "y"] (.var "x"))
+    (.escape (.letE "m" (.lam [p] (.bracket (.pipeM (.flt bits3) (.app (.var "fst") [.escape (.var p), .placeholder]))))
+      (.bracket (dspOnly (.macroExpand (.var "m") [.bracket (.flt bits100)])))))
+
 end Mimium.Stage
